@@ -3,14 +3,14 @@
 # fuzz), repo tests pass, demo fails, and at least one of the recorded checks reports it.
 # usage: tools/recheck_seeded.sh [pattern]   (4 in parallel)
 pat=${1:-C}
-ls -d /verif/seeded/${pat}* | xargs -P 4 -I{} bash -c '
+ls -d /verif/seeded/${pat}* | xargs -P 3 -I{} bash -c '
 d={}; n=$(basename $d); p=${n%-*}
 checks=$(python3 -c "import json;print(\" \".join(json.load(open(\"$d/meta.json\"))[\"detected_by_checks\"]))")
 m=/dev/shm/mido-re-$n; rm -rf $m; mkdir -p $m; git -C /repo archive HEAD | tar -x -C $m
 (cd $m && git apply --recount -C1 $d/patch.diff 2>/dev/null) || (cd $m && patch -p1 -F3 < $d/patch.diff >/dev/null 2>&1) || { echo "$n: PATCH-FAILS"; rm -rf $m; exit 0; }
 det=""
 for c in $checks; do
-  (cd /verif && MIDO_REPO=$m VERIF_NOEVIDENCE=1 VERIF_PROCS=4 VERIF_TIMEOUT=900 timeout -k 5 900 /venv/bin/python -m mc $c > /dev/shm/re-$n-$c.out 2>&1); rc=$?
+  (cd /verif && MIDO_REPO=$m VERIF_NOEVIDENCE=1 VERIF_PROCS=3 VERIF_TIMEOUT=900 timeout -k 5 900 /venv/bin/python -m mc $c > /dev/shm/re-$n-$c.out 2>&1); rc=$?
   [ $rc = 1 ] && det="$det $c"
   rm -f /dev/shm/re-$n-$c.out
 done
